@@ -5,7 +5,7 @@ from hypothesis import strategies as st
 from ..core import Clause, Violation, Discard
 from .. import gens, refmodel
 
-RULE = ("Cases: signals of length 3..400 from all families (short noisy ones over-weighted) x stop rule {sd, rilling, "
+RULE = ("Cases: signals of length 3..400 from all families (short noisy ones over-weighted; stored as float64 / float32 / int64 / int16) x stop rule {sd, rilling, "
         "fixed} x thresholds (sd 1e-6..0.5; Rilling triples) x step in {1,.75,.5,1/3,.1} x iteration limit 1..1000 "
         "(1..6 over-weighted together with tiny thresholds to force non-convergence) x {splrep,pchip,mono_pchip} x "
         "pad width 1..5 x energy_thresh in {None,10..80}. Oracle: differential against an independent re-"
@@ -59,7 +59,8 @@ def vanish_case(draw):
 
 def oracle(case, rec):
     import emd
-    x = gens.sig_of(case['sig'])
+    xt = gens.sig_of(case['sig'])           # possibly float32 / integer dtype
+    x = xt.astype(float)
     opts = dict(case['opts'])
     eo = {'interp_method': case['interp']}
     xo = {'pad_width': case['pad']}
@@ -69,7 +70,7 @@ def oracle(case, rec):
     kw = dict(opts)
     if case['energy'] is not None:
         kw['energy_thresh'] = case['energy']
-    xin = x[:, None].copy()
+    xin = xt[:, None].copy()
     eo_live, xo_live = dict(eo), dict(xo)       # caller-owned dicts, reused for the repeated call below
     try:
         imf, flag = emd.sift.get_next_imf(xin, envelope_opts=eo_live, extrema_opts=xo_live, **kw)
@@ -112,6 +113,7 @@ def oracle(case, rec):
         need = 'result'
     rec.cls('exit=' + ('limit' if need == 'error' else r.exit))
     rec.cls('stop=' + sm)
+    rec.cls('dtype=' + case['sig'].get('dtype', 'f8'))
     if need == 'error':
         if got != 'error':
             mismatch('C04/get_next_imf/limit-not-enforced/' + sm, 'returned although the reference needs > max_iters+1 iterations')
